@@ -44,7 +44,7 @@ ASSUMPTIONS = [
     '.run default CLOSE ON: named SELECT queries in all shapes; named BALANCES/JOURNAL/PRINT only without FROM or with an explicit CLOSE (where both readings of the property agree)',
     '.tables/.describe/.explain output text and warnings text are never compared',
 ]
-PROBES = ['run_listing_after_missing_name', 'bookkeeping_command', 'several_lines_in_one_cmdloop', 'bare_non_legacy_word', 'named_query_text_typed_after_run', 'render_after_setting_change', 'numberify_on_render', 'csv_render', 'boxed_unicode_render', 'empty_text_result',
+PROBES = ['run_default_close_non_select', 'run_listing_after_missing_name', 'bookkeeping_command', 'several_lines_in_one_cmdloop', 'bare_non_legacy_word', 'named_query_text_typed_after_run', 'render_after_setting_change', 'numberify_on_render', 'csv_render', 'boxed_unicode_render', 'empty_text_result',
           'run_default_close_applied', 'run_explicit_close_kept', 'invalid_set_rejected', 'either_or_value', 'writer_fault_prefix',
           'second_session_isolated', 'cmdloop_error_path', 'dot_keyword_not_executed', 'legacy_bare_command', 'print_statement',
           'cli_output_file', 'cli_quiet_with_errors', 'cli_stdin_query', 'cli_init_file', 'nullvalue_rendered', 'expand_render']
@@ -68,6 +68,7 @@ STMTS = [
     'SELECT account, position, balance WHERE account ~ "Broker"',
     'SELECT 1 AS one, NULL AS nothing, "x" AS s FROM #',
     "SELECT account, 'a;b' AS semi WHERE narration != 'x; y' AND number > 0",
+    '/* monthly report */ SELECT account, sum(position) AS total GROUP BY account ORDER BY account',
     'BALANCES',
     'BALANCES AT cost FROM year = 2020',
     'JOURNAL "Assets:Bank"',
@@ -87,7 +88,7 @@ STMTS = [
 def gen_named_queries(rng, lastday):
     qs = []
     shapes = rng.sample(['sel_from', 'sel_from_close', 'sel_nofrom', 'sel_open', 'bal_nofrom', 'bal_close', 'jrn_nofrom',
-                         'prt_close', 'sel_from2'], rng.randint(2, 5))
+                         'prt_close', 'sel_from2', 'bal_from', 'jrn_from', 'prt_from'], rng.randint(2, 5))
     for i, sh_ in enumerate(shapes):
         date = rng.choice(['2020-01-20', '2020-02-10', '2020-03-05', '2021-01-01'])
         name = rng.choice([f'q{i}', f'q-{i}', f'my query {i}'])
@@ -108,6 +109,12 @@ def gen_named_queries(rng, lastday):
         elif sh_ == 'bal_close':
             q['head'], q['from'], q['tail'] = 'BALANCES', 'year >= 2020 CLOSE ON 2020-02-20', ''
             q['explicit'] = True
+        elif sh_ == 'bal_from':
+            q['head'], q['from'], q['tail'] = 'BALANCES', 'year >= 2020', ''
+        elif sh_ == 'jrn_from':
+            q['head'], q['from'], q['tail'] = "JOURNAL 'Assets'", "narration != 'zzz'", ''
+        elif sh_ == 'prt_from':
+            q['head'], q['from'], q['tail'] = 'PRINT', 'year >= 2020', ''
         elif sh_ == 'jrn_nofrom':
             q['head'], q['from'], q['tail'] = "JOURNAL 'Assets'", None, ''
         elif sh_ == 'prt_close':
@@ -133,7 +140,9 @@ def query_text(q, with_default_close=False):
     t = q['head']
     if q.get('from'):
         t += ' FROM ' + q['from']
-        if with_default_close and not q.get('explicit') and q['head'].startswith('SELECT'):
+        if with_default_close and not q.get('explicit'):
+            # "CLOSE ON defaulting to the query directive's date when its FROM clause names none" - for every
+            # kind of statement that has a FROM clause
             t += ' CLOSE ON ' + q['date']
     if q.get('tail'):
         t += ' ' + q['tail']
@@ -155,10 +164,10 @@ def gen_set(rng):
     if r < 0.08:
         return {'op': 'set_show_all'}
     if r < 0.2:
-        return {'op': 'set_show', 'name': rng.choice(list(DEFAULTS) + ['nosuch'])}
+        return {'op': 'set_show', 'name': rng.choice(list(DEFAULTS) + ['nosuch', 'todict', '__doc__', 'setstr'])}
     if r < 0.25:
         return {'op': 'set_arity', 'name': rng.choice(list(DEFAULTS)), 'args': ['true', 'false']}
-    name = rng.choice(BOOLS * 2 + ['format'] * 4 + ['nullvalue'] * 3 + ['nosuch', 'Boxed'])
+    name = rng.choice(BOOLS * 2 + ['format'] * 4 + ['nullvalue'] * 3 + ['nosuch', 'Boxed', 'todict', 'getstr', '__doc__', '_parse_bool'])
     if name in BOOLS:
         v = rng.choice(TRUE + FALSE + [x.upper() for x in TRUE[:3] + FALSE[:3]] + ['True', 'False', 'maybe', '2', 'tru', '', ' yes ', 'on '])
     elif name == 'format':
@@ -178,7 +187,7 @@ def generate(rng, tier, run):
     named = gen_named_queries(rng, ledger['lastday'])
     for q in named:
         ledger['dirs'].append({'k': 'query', 'date': q['date'], 'name': q['name'], 'text': query_text(q)})
-    pool = rng.sample(STMTS[:18], rng.randint(3, 7)) + rng.sample(STMTS[18:], rng.choice([0, 1, 1, 2]))
+    pool = rng.sample(STMTS[:19], rng.randint(3, 7)) + rng.sample(STMTS[19:], rng.choice([0, 1, 1, 2]))
     # the text of a named query typed as an ordinary statement (must NOT get the directive's close date)
     for q in named:
         if rng.random() < 0.5 and not q.get('dup'):
@@ -228,6 +237,7 @@ def generate(rng, tier, run):
                                        {'op': 'misc', 'text': '.parse ' + rng.choice(pool)}, {'op': 'misc', 'text': '.run'}]))
             elif r < 0.96:
                 ops.append(rng.choice([{'op': 'unknown', 'text': '.foo'}, {'op': 'unknown', 'text': '.selectx 1'},
+                                       {'op': 'unknown', 'text': '. foo'}, {'op': 'unknown', 'text': '.-x'},
                                        {'op': 'bareword', 'text': 'tables'}, {'op': 'bareword', 'text': 'describe postings'},
                                        {'op': 'bareword', 'text': 'explain SELECT account'}, {'op': 'bareword', 'text': 'Tables'},
                                        {'op': 'dotkw', 'text': '.select a FROM #sentinel'},
@@ -251,7 +261,7 @@ def generate(rng, tier, run):
 def generate_cli(rng, tier, run):
     with_errors = rng.random() < 0.5
     ledger = world.gen_ledger(rng, n_txn=rng.randint(1, 5), with_errors=with_errors)
-    stmt = rng.choice(STMTS[:17])
+    stmt = rng.choice(STMTS[:12])
     init = None
     if rng.random() < 0.25:
         init = [rng.choice(['.set boxed true', '.set spaced on', '.set nullvalue NA', '.set unicode yes', '.set expand 1',
@@ -653,8 +663,10 @@ def execute(case, keep_log=False):
                         else:
                             line = f'.run {nm}' + (';' if op['form'] == 'semicolon' else '')
                             ran_texts[ci].add(query_text(q))
-                            if q.get('from') and q['head'].startswith('SELECT'):
+                            if q.get('from'):
                                 S.probes['run_explicit_close_kept' if q.get('explicit') else 'run_default_close_applied'] += 1
+                                if not q.get('explicit') and not q['head'].startswith('SELECT'):
+                                    S.probes['run_default_close_non_select'] += 1
                             do_statement(ci, where, op, query_text(q, with_default_close=True), ('run', op['q']), line)
             elif k in ('tables', 'describe', 'explain'):
                 line = {'tables': '.tables', 'describe': f'.describe {op.get("what")}',
